@@ -145,10 +145,43 @@ def gen_transformation(rnd):
     return {"kind": kind, "scope": scope}
 
 
+PH_VARS = {"p": ["x", "y"], "q": ["only"]}
+LS = {"category": "cat", "product": "prod"}
+# hand-picked rules: every documented feature of every transformation is met at least once in every run
+FIXED_RULES = [
+    {"dets": {"sel": {"fieldA|contains|all": ["abc", "foo", "val"], "win.user": "abc"}}, "cond": "sel", "logsource": LS},
+    {"dets": {"sel": {"win.image": "abc", "win.name|startswith": "foo", "win.nt|fieldref": "win.idx"}, "flt": {"fieldA": ["abc", "val"]}}, "cond": "sel and not flt", "logsource": LS,
+     "fields": ["win.image", "fieldA", "other"]},
+    {"dets": {"sel": ["abc", "kw*2"], "flt": {"fieldA|fieldref": "fieldB", "fieldB": 5}}, "cond": "sel or flt", "logsource": LS},
+    {"dets": {"sel": [{"fieldA": "abc"}, {"fieldB|endswith": ["foo", "Abc*"]}], "sel2": {"fieldA|cased": "Abc"}}, "cond": "1 of sel*", "logsource": LS},
+    {"dets": {"sel": {"fieldA|all": ["abc", "foo"], "fieldB": None}}, "cond": "not sel", "logsource": LS},
+]
+PH_RULES = [
+    {"dets": {"sel": {"fieldA|expand": "a%p%b", "fieldB": "v"}}, "cond": "sel", "logsource": LS},
+    {"dets": {"sel": {"fieldA|re|i|expand": "a%p%b"}}, "cond": "sel", "logsource": LS},
+    {"dets": {"sel": {"fieldA|re|m|s|expand": "^%p%$"}}, "cond": "not sel", "logsource": LS},
+    {"dets": {"sel": {"fieldA|expand|all": ["%p%", "z"]}, "flt": {"fieldB|contains|expand": "%q%%p%"}}, "cond": "sel and not flt", "logsource": LS},
+    {"dets": {"sel": {"fieldA|expand": ["%p%", "%q%", "lit"]}}, "cond": "sel", "logsource": LS},
+]
+NAMED_KINDS = ["map11", "map1n", "kw2field", "prefix", "suffix", "prefixmap", "drop", "addcond", "addcond_neg", "addcond_tpl",
+               "replace", "replace_id", "mapstr", "mapstr_n", "mapstr_id", "case_lower", "case_upper", "setvalue", "convert_str",
+               "map_empty", "ph_id", "scope_none", "nest", "add_field", "remove_field", "set_field"]
+
+
 def gen_cases(tier, seed, gen, effort):
     rnd = random.Random(seed * 8111 + 12)
     thorough = tier == "thorough"
-    return [{"rule": gen_rule(rnd), "t": gen_transformation(rnd)} for _ in range((2500 if not thorough else 40000) * effort)], False
+    cases = [{"rule": gen_rule(rnd), "t": gen_transformation(rnd)} for _ in range((2500 if not thorough else 40000) * effort)]
+    for r in FIXED_RULES:
+        for k in NAMED_KINDS:
+            for scope in (None, ("include", ["fieldA"]), ("exclude", ["fieldA", "win.image"])):
+                cases.append({"rule": copy.deepcopy(r), "t": {"kind": k, "scope": scope}})
+    for r in PH_RULES:
+        for k in ("ph_value", "ph_wild"):
+            if k == "ph_wild" and "|re" in repr(r["dets"]):
+                continue      # a wildcard inside a regular expression has no documented rewrite (C17 judges only that no raw placeholder is emitted)
+            cases.append({"rule": copy.deepcopy(r), "t": {"kind": k, "scope": None}})
+    return cases, False
 
 
 # ------------------------------------------------------------------ pipeline YAML for a transformation
@@ -186,6 +219,8 @@ def t_yaml(t):
         "convert_str": {"type": "convert_type", "target_type": "str"},
         "map_empty": {"type": "field_name_mapping", "mapping": {}},
         "ph_id": {"type": "wildcard_placeholders", "include": ["nosuchplaceholder"]},
+        "ph_value": {"type": "value_placeholders", "include": ["p"]},
+        "ph_wild": {"type": "wildcard_placeholders", "include": ["p"]},
         "add_field": {"type": "add_field", "field": ["extra", "fieldA"]},
         "remove_field": {"type": "remove_field", "field": ["fieldA", "nosuchfield", "fieldA"]},
         "set_field": {"type": "set_field", "fields": ["only.this"]},
@@ -422,6 +457,10 @@ def rewrite_rule(case):
     k = t["kind"]
     dets = []
     cond = case["rule"]["cond"]
+    if k in ("ph_value", "ph_wild"):      # read by the rule semantics with the item as context: the document stays
+        if k == "ph_value" and "|re" in repr(case["rule"]["dets"]):
+            return {"dets": [(nm, det_json(subst_regex(d))) for nm, d in case["rule"]["dets"].items()], "cond": cond, "fields": list(case["rule"].get("fields", []))}
+        return {"dets": [(nm, det_json(d)) for nm, d in case["rule"]["dets"].items()], "cond": cond, "fields": list(case["rule"].get("fields", []))}
     for nm, d in case["rule"]["dets"].items():
         r = rewrite_det(t, d)
         if r is None:
@@ -562,9 +601,30 @@ def tr_desc(y, rule, names=None, universe=None):
         return {"t": "removeFields", "fields": [cps(f) for f in aslist(y["field"])]}
     if ty == "set_field":
         return {"t": "setFields", "fields": [cps(f) for f in y["fields"]]}
-    if ty == "wildcard_placeholders":
+    if ty in ("wildcard_placeholders", "value_placeholders"):
         return {"t": "nest", "items": []}      # placeholders are part of the rule semantics (C17); the generated rules have none
     raise ValueError(f"no Lean rewrite for {ty}")
+
+
+def subst_regex(d):
+    """value_placeholders on `field|re|…|expand` items of a map, by hand"""
+    import itertools
+    out = {}
+    for key, val in d.items():
+        mods = key.split("|")
+        if "re" in mods and "expand" in mods:
+            vals = []
+            for v in (val if isinstance(val, list) else [val]):
+                names = re.findall(r"%(\w+)%", v)
+                for combo in itertools.product(*[PH_VARS[n] for n in names]):
+                    x = v
+                    for n, c in zip(names, combo):
+                        x = x.replace(f"%{n}%", c, 1)
+                    vals.append(x)
+            out["|".join(m for m in mods if m != "expand")] = vals
+        else:
+            out[key] = val
+    return out
 
 
 def rule_dict(case):
@@ -579,7 +639,7 @@ def run_impl(case):
     from sigma.collection import SigmaCollection
     from sigma.processing.pipeline import ProcessingPipeline
     try:
-        pl = ProcessingPipeline.from_dict({"name": "p", "priority": 1, "transformations": [t_yaml(case["t"])]})
+        pl = ProcessingPipeline.from_dict({"name": "p", "priority": 1, "vars": PH_VARS, "transformations": [t_yaml(case["t"])]})
         coll = SigmaCollection.from_dicts([rule_dict(case)])
         qs = qsyntax.make_backend(CFG)(pl).convert(coll)
         fields = [str(f) for f in coll.rules[0].fields]      # the pipeline ran on the rule object of the collection
@@ -604,9 +664,20 @@ def make_request(case, impl, gen):
             qs.append(qsyntax.tokenize(q))
         except qsyntax.Tokenize as e:
             qs.append({"tokErr": str(e)})
-    return {"op": "rewrite.case", "dets": [{"name": cps(n), "det": det_json(d)} for n, d in rule["dets"].items()],
-            "conds": [cps(rule["cond"])], "fields": [cps(f) for f in rule.get("fields", [])],
-            "tr": tr_desc(t_yaml(case["t"]), rule), "cfg": {"prec": CFG["prec"], "nativeCidr": True}, "wordChars": [], "queries": qs}
+    r = {"op": "rewrite.case", "dets": [{"name": cps(n), "det": det_json(d)} for n, d in rule["dets"].items()],
+         "conds": [cps(rule["cond"])], "fields": [cps(f) for f in rule.get("fields", [])],
+         "tr": tr_desc(t_yaml(case["t"]), rule), "cfg": {"prec": CFG["prec"], "nativeCidr": True}, "wordChars": [], "queries": qs}
+    if case["t"]["kind"] == "ph_value" and "|re" in repr(rule["dets"]):
+        # regular expressions: the documented rewrite is done by hand here (every placeholder replaced by each value of its
+        # variable, all combinations, as alternatives; modifiers - the flags - stay): the Lean semantics reads the result
+        r["dets"] = [{"name": cps(n), "det": det_json(subst_regex(d))} for n, d in rule["dets"].items()]
+        return r
+    if case["t"]["kind"] in ("ph_value", "ph_wild"):
+        # placeholder expansion is read by the Lean rule semantics (Spec/Rule, Spec/Placeholder): the item and the variables are its context
+        r["phItems"] = [{"kind": "value" if case["t"]["kind"] == "ph_value" else "wildcard", "include": [cps("p")], "exclude": None,
+                         "expr": cps(qsyntax.QX_EXPR), "mapping": []}]
+        r["vars"] = [[cps(k), [{"text": cps(str(x))} for x in v]] for k, v in PH_VARS.items()]
+    return r
 
 
 def _d3(case):
